@@ -27,7 +27,7 @@ type Outcome struct {
 func (f *Frame) block(st *State, list []ast.Stmt) []Outcome {
 	var outs []Outcome
 	cur := st
-	for _, s := range list {
+	for i, s := range list {
 		if cur == nil || cur.pc.S == "false" {
 			return outs
 		}
@@ -40,6 +40,17 @@ func (f *Frame) block(st *State, list []ast.Stmt) []Outcome {
 			} else {
 				outs = append(outs, o)
 			}
+		}
+		if f.split && len(falls) > 1 && f.vc.liveSplits+len(falls) <= 24 {
+			// path splitting (//kvc:split): run the rest of the block once per incoming path instead of
+			// merging them; the obligations of the different paths keep separate, much smaller contexts
+			rest := list[i+1:]
+			f.vc.liveSplits += len(falls) - 1
+			for _, fs := range falls {
+				f.ghostAt(fs, s, false)
+				outs = append(outs, f.block(fs, rest)...)
+			}
+			return outs
 		}
 		cur = f.vc.merge(falls)
 		if cur != nil {
@@ -692,7 +703,7 @@ func (f *Frame) checkPost(st *State, vals []Term, pos token.Pos) {
 			vc.obligeOnly(st, name, "frame", Eq(cur, old), pos, "global "+k+" not in Modifies")
 		default:
 			r := Term{"r!", SInt}
-			conds := []Term{Select(vc.alloc(f.old), r)}
+			conds := []Term{vc.isAlloc(f.old, r)}
 			if ms != nil {
 				for _, x := range ms.refs {
 					conds = append(conds, Not(Eq(r, x)))
